@@ -42,6 +42,7 @@ PROFILES = {
     'c15-utility': dict(BASE, kinds=0x7f, pGuardIssue=0, pGuardCancel=80, pIssue=40, maxBatch=3, pendq=0, wReset=1, wExitEnter=1, wQuery=1, pConsume=40, wfEvery=0),
     'payload':   dict(BASE, pGuardCancel=60, pGuardIssue=100, pIssue=80, maxBatch=4, pNoPayload=200),
 }
+PROFILES['memcheck'] = dict(PROFILES['burst'], _flavours=['gcc-vg'])      # valgrind memcheck: uninitialised reads, which ASan/UBSan do not see
 
 # property -> engine configuration
 SHAPE_PROPS = {
@@ -54,7 +55,7 @@ SHAPE_PROPS = {
     'C07': dict(profiles=['plans-edit', 'plans'], title='plan storage'),
     'C08': dict(profiles=['serial'], title='save/load'),
     'C09': dict(profiles=['history', 'replica', 'single'], title='history'),
-    'C11': dict(profiles=['ordinary', 'burst', 'alloc'], title='memory safety / UB / assertions / allocation', flavours={'quick': ['clang-asan', 'gcc'], 'thorough': ['clang-asan', 'gcc-asan', 'gcc', 'clang-dev', 'gcc-O2']}),
+    'C11': dict(profiles=['ordinary', 'burst', 'alloc', 'memcheck'], title='memory safety / UB / assertions / allocation', flavours={'quick': ['clang-asan', 'gcc'], 'thorough': ['clang-asan', 'gcc-asan', 'gcc', 'clang-dev', 'gcc-O2']}),
     'C12': dict(profiles=['utility', 'utility-hostile'], title='utility / random selection'),
     'C16': dict(profiles=['mirror', 'mirror-idle', 'mirror-plans'], title='logger / structure report', flavours={'quick': ['gcc', 'clang', 'clang-vlog'], 'thorough': ['gcc', 'clang', 'clang-vlog', 'gcc17', 'clang-dev']}),
     'C13': dict(profiles=['single', 'mixed'], title='queries'),
@@ -73,7 +74,7 @@ RULES = {
     'C11': 'evaluations = API operations executed under AddressSanitizer/UBSan or with live library assertions (HFSM2_VERIF); distinct_nontrivial = distinct (shape, active, resumable) configurations reached while doing so',
     'C12': 'evaluations = select/utility/random resolutions compared with the interpreter (weighted draws additionally re-checked in exact rational arithmetic); distinct_nontrivial = distinct (region, rank vector, utility vector, generator output) draws and (region, utility vector) choices',
     'C16': 'evaluations = user callbacks matched against the logger stream plus structure()/activityHistory() snapshots; distinct_nontrivial = distinct (shape, activity-history vector) values observed after a change',
-    'C13': 'evaluations = quiescent query checks; distinct_nontrivial = distinct (shape, configuration before, after) of single-request rounds whose isPending* vectors were compared with the enter/exit callbacks',
+    'C13': 'evaluations = quiescent query checks; distinct_nontrivial = distinct (shape, configuration before, after) of single-request rounds whose isPending* vectors were compared with the enter/exit callbacks; resumes of regions with a reported resumable sub-state are checked against what the resume activated (events: C13.resume-of-a-region-with-a-reported-resumable)',
     'C14': 'evaluations = payload observations (guards, enter, history, lastTransition); distinct_nontrivial = distinct (shape, id tuple recorded in history)',
 }
 EVAL_KEY = {'C16': 'C16.callbacks-mirrored', 'C12': 'C12.resolutions', 'C06': 'C06.steps', 'C07': 'C07.plan-comparisons', 'C08': 'C08.loads', 'C05': 'C05.deliveries', 'C04': 'C04.guard-calls', 'C13': 'C13.quiescent-checks', 'C14': 'C14.payloads-seen-by-guards'}
@@ -109,9 +110,10 @@ def run_job(job):
     logp = os.path.join(tmpd, tag + '.log')
     nolog = bool(PROFILES[profile].get('_nolog'))
     args = ['steps=%d' % (steps * (8 if nolog else 1)), 'seed=%d' % seed] + ([] if nolog else ['log=' + logp]) + knob_args(profile)
-    rc, out, err = vlib.run_bin(binp, args, timeout=600, stdout_path=logp if nolog else None)
+    rc, out, err = vlib.run_bin(binp, args, timeout=600, stdout_path=logp if nolog else None, memcheck=flavour.endswith('-vg'))
     res = {'shape': sj['name'], 'desc': sj['desc'], 'cfg': sj['cfg'], 'sj': sj, 'flavour': flavour, 'profile': profile, 'seed': seed, 'steps': steps, 'rc': rc, 'args': args}
     skey = vlib.sanitizer_key(err) if err else None
+    if rc == 99 and flavour.endswith('-vg') and not skey: skey = 'memcheck:error'
     if skey: res['sanitizer'] = skey; res['stderr'] = err[-3000:]
     if rc == -999: res['timeout'] = True
     if rc == 4:
@@ -255,7 +257,7 @@ def adjudicate(V, prop, results, shapeset, flavours, extra):
     distinct = len(nt) if prop in ('C02', 'C04', 'C05', 'C06', 'C07', 'C08', 'C12', 'C16', 'C09', 'C13', 'C14') else len(cfgs)
     cov = {
         'evaluations': evals, 'distinct_nontrivial': distinct, 'rule': RULES[prop], 'samples': samples,
-        'runs': len(results), 'runs_completed': completed, 'shapes': [{'name': s['name'], 'desc': s['desc'], 'cfg': s['cfg']} for s in shapeset],
+        'runs': len(results), 'runs_completed': completed, 'runs_by_flavour_and_profile': {k: sum(1 for r in results if r['flavour'] + '/' + r['profile'] == k) for k in sorted(set(r['flavour'] + '/' + r['profile'] for r in results))}, 'shapes': [{'name': s['name'], 'desc': s['desc'], 'cfg': s['cfg']} for s in shapeset],
         'flavours': flavours, 'distinct_configurations': len(cfgs), 'events': {k: v for k, v in sorted(stats.items())},
     }
     cov.update(extra)
